@@ -102,6 +102,7 @@ class History:
         self.handles = []
         self.groups = 0
         self.strays = [set() for _ in range(nproj)]
+        self.planted = [dict() for _ in range(nproj)]  # id-named non-job directories (C04 destinations)
         self.mms = []
         self.cl = set()
         self.nontrivial = False
@@ -280,6 +281,23 @@ class History:
             fsutil.write_file(os.path.join(path, "data.txt"), b"stray data")
         self.strays[p].add(name)
         self.cl.add("stray_planted")
+
+    def op_plant_dest(self, op):
+        """Create an id-named directory that is not an initialised job (empty, or holding only a document)."""
+        p = op.get("p", 0) % len(self.projects)
+        sp = op.get("sp")
+        if not isinstance(sp, dict):
+            return
+        jid = oracle.job_id(sp)
+        d = self.jobdir(p, jid)
+        if jid in self.model[p] or os.path.lexists(d):
+            return
+        os.makedirs(d)
+        kind = "doc_only" if op.get("kind") == "doc_only" else "empty"
+        if kind == "doc_only":
+            fsutil.write_file(os.path.join(d, DOC_FILE), b'{"planted": true}')
+        self.planted[p][jid] = kind
+        self.cl.add("dest_" + kind)
 
     # lifecycle through a handle
     def usable(self, op, allow_stale=False):
@@ -602,6 +620,12 @@ class History:
                 new_id = oracle.job_id(new_sp)
                 noop = new_id == old_id
                 collide = (not noop) and exists and new_id in m
+        planted_kind = self.planted[p].get(new_id) if (exists and not noop) else None
+        if planted_kind == "doc_only":
+            collide = True  # os.replace onto a non-empty directory must fail: nothing may be lost
+        elif planted_kind == "empty" and outcome == "ok":
+            self.planted[p].pop(new_id, None)  # replaced by the re-keyed job
+            self.cl.add("rekey_into_empty_dir")
         if collide:
             self.cl.add("rekey_collision")
             if outcome != "DestinationExistsError":
@@ -702,7 +726,7 @@ class History:
             q = (p + 1) % len(self.projects)
         jid = oracle.job_id(h["sp"])
         exists = jid in self.model[p]
-        collide = jid in self.model[q]
+        collide = jid in self.model[q] or self.planted[q].get(jid) == "doc_only"
         b0 = fsutil.snapshot(os.path.join(self.roots[p], "workspace"))
         b1 = fsutil.snapshot(os.path.join(self.roots[q], "workspace"))
         try:
@@ -732,6 +756,7 @@ class History:
             self.mm("move_raises", f"move of {h['sp']!r} raised {outcome}")
             return
         self.structural("move")
+        self.planted[q].pop(jid, None)
         if fsutil.subtree(b0, jid) != fsutil.subtree(a1, jid) or any(k == jid or k.startswith(jid + "/") for k in a0):
             self.mm("move_carry", f"move of {h['sp']!r}: payload differs or source remains")
         self.model[q][jid] = self.model[p].pop(jid)
@@ -754,7 +779,7 @@ class History:
         q = op.get("p", 0) % len(self.projects)
         jid = oracle.job_id(h["sp"])
         exists = jid in self.model[p]
-        collide = jid in self.model[q]
+        collide = jid in self.model[q] or jid in self.planted[q]
         b0 = fsutil.snapshot(os.path.join(self.roots[p], "workspace"))
         b1 = fsutil.snapshot(os.path.join(self.roots[q], "workspace"))
         try:
@@ -806,7 +831,10 @@ class History:
             except Exception as e:
                 self.mm("listing_raises", f"iterating project {p} raised {type(e).__name__}: {e}")
                 continue
-            if set(it) != want or len(it) != len(want) or ln != len(want) or sorted(fj) != sorted(want):
+            listed = want | set(self.planted[p])  # id-named directories are listed even when not initialised
+            if self.planted[p]:
+                fj = listed  # queries over a corrupted workspace are not asserted
+            if set(it) != listed or len(it) != len(listed) or ln != len(listed) or sorted(fj) != sorted(listed):
                 extra = sorted(set(it) - want)
                 self.mm(
                     "ids",
@@ -841,8 +869,13 @@ class History:
                     self.mm("dir_hash", f"directory {jid}: state point file unreadable: {e}")
             try:
                 fresh.check()
+                if self.planted[p]:
+                    self.mm("check_misses_planted", f"project {p}: check() passed although {sorted(self.planted[p])} hold no state point")
             except JobsCorruptedError as e:
-                self.mm("check_fails", f"project {p}: check() reports {sorted(e.job_ids)}", {"strays": sorted(self.strays[p]), "reported": sorted(e.job_ids)})
+                if self.planted[p] and set(e.job_ids) == set(self.planted[p]):
+                    pass
+                else:
+                    self.mm("check_fails", f"project {p}: check() reports {sorted(e.job_ids)}", {"strays": sorted(self.strays[p]), "reported": sorted(e.job_ids)})
             except Exception as e:
                 self.mm("check_fails", f"project {p}: check() raised {type(e).__name__}: {e}")
             # raw walk: temp / backup files, unexpected entries
@@ -852,7 +885,7 @@ class History:
                     if fn.endswith("~") or fn.startswith("._"):
                         self.mm("leftover", f"leftover temp/backup entry {os.path.relpath(os.path.join(dirpath, fn), root)}")
             for name in sorted(os.listdir(ws)) if os.path.isdir(ws) else []:
-                if name in want or name in self.strays[p]:
+                if name in want or name in self.strays[p] or name in self.planted[p]:
                     continue
                 self.mm("unexpected_entry", f"project {p}: workspace entry {name!r} is neither a model job nor a planted stray")
             if not self.projects[p]._contains_job_id if False else False:
